@@ -20,7 +20,7 @@ META = {
     'engine': 'coq+extraction+harness',
 }
 
-ALPHA = 'AFMSPafmspx'
+ALPHA = 'AFMRSPafmspx'
 
 
 def gen_histories(chk, n, maxlen):
@@ -33,7 +33,7 @@ def gen_histories(chk, n, maxlen):
     while len(hs) < n:
         k = rng.randint(1, maxlen)
         w = rng.choice([(8, 1), (3, 1), (1, 1)])  # insertion-heavy, mixed, clear-heavy
-        hs.append(''.join(rng.choice('AFMSP') if rng.random() < w[0] / (w[0] + w[1]) else rng.choice('afmspx') for _ in range(k)))
+        hs.append(''.join(rng.choice('AFMSPRM') if rng.random() < w[0] / (w[0] + w[1]) else rng.choice('afmspx') for _ in range(k)))
     return hs
 
 
@@ -89,7 +89,7 @@ def run():
         _, o, _ = vlib.run_lines(impl, [small])
         _, sp, _ = vlib.run_lines(model, [small], ['spec'])
         chk.fail('handler list violates class order / stability / single formatter after history %r' % small,
-                 {'history': small, 'alphabet': 'A F M S P = appendAttrHandler appendFilter setFormatter appendSink appendPipeline; a f m s p = clear<Class>; x = clear()',
+                 {'history': small, 'alphabet': 'A F M S P = appendAttrHandler appendFilter setFormatter appendSink appendPipeline; R = setFormatter with the same formatter object as the last M/R; a f m s p = clear<Class>; x = clear()',
                   'implementation_lists_after_each_call': o[0] if o else None, 'specified_lists': sp[0] if sp else None,
                   'falsified_histories': len(falsified), 'kind': 'order'}, kind='order')
     elif dis_spec:
@@ -102,8 +102,8 @@ def run():
         chk.broke('correspondence: model (with the translated configuration) and SortedPipeline differ on %d histories, e.g. %r' % (len(dis_model), h),
                   {'kind': 'correspondence', 'history': h})
     distinct = len(set(hs))
-    chk.cov.update({'evaluations': len(hs), 'distinct_nontrivial': len({h for h in hs if len(set(h) & set('AFMSP')) >= 2}),
-                    'rule': 'random histories over the 11 calls (three insertion/clear mixes, all 120 class orders as prefixes) plus every '
+    chk.cov.update({'evaluations': len(hs), 'distinct_nontrivial': len({h for h in hs if len(set(h) & set('AFMRSP')) >= 2}),
+                    'rule': 'random histories over the 12 calls (three insertion/clear mixes, all 120 class orders as prefixes) plus every '
                             'history of length <= %d; non-trivial = inserts at least two different classes' % ex_len,
                     'exhaustive_up_to_length': ex_len, 'distinct': distinct,
                     'disagreements_model_vs_impl': len(dis_model), 'oracle_evaluated_on_impl_lists': sum(len(v) for v in verdicts),
